@@ -2044,7 +2044,16 @@ def check_batch(st: Stats | None, progs: list, seed: int, base: int = 0) -> list
                 rt()["module_seen"].add(key)
                 sub = _minimise(progs, res["stage"], res["exc"])
                 sn = [f"p{i}" for i in range(len(sub))]
-                _record_failure(st, sub, sn, translate(module_text(sub, sn)), "for several functions in one module, ")
+                r2 = translate(module_text(sub, sn))
+                if r2["stage"] == "ok":
+                    # the same text translated a moment ago failed: the converter's answer depends on what it
+                    # translated before (state leaking between conversions)
+                    st.violate(f"C23|module|translation-depends-on-history|{res['stage']}|{res['exc']}",
+                               f"a module failed to translate ({res['stage']}: {res['exc']}: {res['msg'][:120]}) but the same functions "
+                               "translate when converted again: the result depends on earlier conversions in the process",
+                               {"progs": sub, "mlir": module_text(sub, sn), "stage": res["stage"], "message": res["msg"][:300]})
+                else:
+                    _record_failure(st, sub, sn, r2, "for several functions in one module, ")
         return kinds
     ee = res["ee"]
     kinds = []
